@@ -427,6 +427,12 @@ def r4_validator_state(ctx) -> None:
                         n += 1
                         loc = f"{f.module.relpath}:{nd.lineno}"
                         owner = next((k for k in prog.mro(cq) if (k, b.attr) in VALIDATOR_STATE), None)
+                        if owner is None:
+                            # a method of a shared base class: reviewed if the entry exists for every class that inherits it
+                            subs_ = [s_ for s_ in prog.subclasses(cq, strict=True) if prog.lookup_method(s_, name) is f]
+                            owners_ = [next((k for k in prog.mro(s_) if (k, b.attr) in VALIDATOR_STATE), None) for s_ in subs_]
+                            if subs_ and all(owners_):
+                                owner = owners_[0]
                         st_node = prog.enclosing_stmt(nd)
                         read_elsewhere = any(
                             isinstance(x, ast.Attribute) and x.attr == b.attr and isinstance(x.ctx, ast.Load) and isinstance(x.value, ast.Name) and x.value.id == "self"
